@@ -27,6 +27,9 @@ EXTRA = {
     'C06-2': ['C07'], 'C09-2': ['C06'], 'C03-3': ['C06'], 'C10-1': ['C11', 'C05'], 'C11-2': ['C10', 'C05'], 'C11-3': ['C05'],
     'C05-2': ['C11'], 'C05-3': ['C10', 'C11'], 'C02-1': ['C03', 'C08'], 'C08-2': ['C03'], 'C17-2': ['C10'], 'C15-3': ['C07'],
     'C06-1': ['C07'], 'C07-2': ['C06', 'C09'], 'C01-2': ['C03'],
+    'C07-w42': ['C09'], 'C08-w41': ['C12', 'C13'], 'C08-w43': ['C09'], 'C01-w41': ['C07', 'C06'], 'C01-w43': ['C12', 'C13'],
+    'C03-w42': ['C02', 'C17'], 'C06-w41': ['C07'], 'C10-w43': ['C12', 'C13'], 'C13-w43': ['C12'], 'C12-w42': ['C13'],
+    'C14-w41': ['C11'], 'C11-w43': ['C14'], 'C17-w43': ['C02'], 'C20-w42': [], 'C16-w43': ['C04'],
 }
 
 
